@@ -40,74 +40,74 @@ def sortModeOld : P SortDir :=
         pmap (fun _ => SortDir.desc) (tag "descending")]
 
 theorem sortMode_ascending (rest : List Char) (e : Nat) :
-    sortMode ("ascending".toList ++ rest) e = .ok .asc rest e := by
+    sortMode (q!"ascending" ++ rest) e = .ok .asc rest e := by
   simp [sortMode, altL, alt, pmap, tag, Text.stripPrefix?, Res.castErr]
 
 theorem sortMode_descending (rest : List Char) (e : Nat) :
-    sortMode ("descending".toList ++ rest) e = .ok .desc rest e := by
+    sortMode (q!"descending" ++ rest) e = .ok .desc rest e := by
   simp [sortMode, altL, alt, pmap, tag, Text.stripPrefix?, Res.castErr]
 
 theorem sortMode_dsc (rest : List Char) (e : Nat) :
-    sortMode ("dsc".toList ++ rest) e = .ok .desc rest e := by
+    sortMode (q!"dsc" ++ rest) e = .ok .desc rest e := by
   simp [sortMode, altL, alt, pmap, tag, Text.stripPrefix?, Res.castErr]
 
 /-- the continuation does not itself continue the long spelling -/
-def stop (rest : List Char) : Prop := Text.stripPrefix? "ending".toList rest = none
+def stop (rest : List Char) : Prop := Text.stripPrefix? q!"ending" rest = none
 
 theorem sortMode_asc (rest : List Char) (e : Nat) (h : stop rest) :
-    sortMode ("asc".toList ++ rest) e = .ok .asc rest e := by
+    sortMode (q!"asc" ++ rest) e = .ok .asc rest e := by
   have h' : Text.stripPrefix? ['e', 'n', 'd', 'i', 'n', 'g'] rest = none := h
   simp [sortMode, altL, alt, pmap, tag, Text.stripPrefix?, Res.castErr, h']
 
 theorem sortMode_desc (rest : List Char) (e : Nat) (h : stop rest) :
-    sortMode ("desc".toList ++ rest) e = .ok .desc rest e := by
+    sortMode (q!"desc" ++ rest) e = .ok .desc rest e := by
   have h' : Text.stripPrefix? ['e', 'n', 'd', 'i', 'n', 'g'] rest = none := h
   simp [sortMode, altL, alt, pmap, tag, Text.stripPrefix?, Res.castErr, h']
 
 /-- **C20 (sort directions).** `asc` ≡ `ascending` and `desc` ≡ `dsc` ≡ `descending`, whatever
 follows. -/
 theorem C20_sort_direction_synonyms (rest : List Char) (e : Nat) (h : stop rest) :
-    sortMode ("ascending".toList ++ rest) e = sortMode ("asc".toList ++ rest) e ∧
-    sortMode ("descending".toList ++ rest) e = sortMode ("desc".toList ++ rest) e ∧
-    sortMode ("dsc".toList ++ rest) e = sortMode ("desc".toList ++ rest) e := by
+    sortMode (q!"ascending" ++ rest) e = sortMode (q!"asc" ++ rest) e ∧
+    sortMode (q!"descending" ++ rest) e = sortMode (q!"desc" ++ rest) e ∧
+    sortMode (q!"dsc" ++ rest) e = sortMode (q!"desc" ++ rest) e := by
   rw [sortMode_ascending, sortMode_descending, sortMode_dsc, sortMode_asc rest e h, sortMode_desc rest e h]
   exact ⟨rfl, rfl, rfl⟩
 
 /-- non-vacuity of `stop`: a blank, a bar, the end of the query -/
-example : stop [] ∧ stop " | limit 1".toList ∧ stop "|count".toList := by
+example : stop [] ∧ stop q!" | limit 1" ∧ stop q!"|count" := by
   simp [stop, Text.stripPrefix?]
 
 /-- **Counterexample for the code before 96a22d2**: the long spellings were cut short after
 `asc` / `desc`, leaving `ending…` unparsed, for EVERY continuation. -/
 theorem C20_descending_counterexample (rest : List Char) (e : Nat) :
-    sortModeOld ("descending".toList ++ rest) e = .ok .desc ("ending".toList ++ rest) e ∧
-    sortModeOld ("ascending".toList ++ rest) e = .ok .asc ("ending".toList ++ rest) e := by
+    sortModeOld (q!"descending" ++ rest) e = .ok .desc (q!"ending" ++ rest) e ∧
+    sortModeOld (q!"ascending" ++ rest) e = .ok .asc (q!"ending" ++ rest) e := by
   constructor <;> simp [sortModeOld, altL, alt, pmap, tag, Text.stripPrefix?, Res.castErr]
 
 /-! ### comparison operators, `fields` modes, percentile spellings -/
 
 /-- **C20 (`!=` ≡ `<>`)** for every continuation -/
 theorem C20_neq_synonyms (rest : List Char) (e : Nat) :
-    compOp ("!=".toList ++ rest) e = .ok .neq rest e ∧
-    compOp ("<>".toList ++ rest) e = .ok .neq rest e := by
+    compOp (q!"!=" ++ rest) e = .ok .neq rest e ∧
+    compOp (q!"<>" ++ rest) e = .ok .neq rest e := by
   constructor <;> simp [compOp, altL, alt, pmap, tag, Text.stripPrefix?, Res.castErr]
 
 /-- **C20 (`fields` modes)**: `+` ≡ `only` ≡ `include`, `-` ≡ `except` ≡ `drop`, for every
 continuation -/
 theorem C20_fields_mode_synonyms (rest : List Char) (e : Nat) :
     fieldsMode ('+' :: rest) e = .ok .only rest e ∧
-    fieldsMode ("only".toList ++ rest) e = .ok .only rest e ∧
-    fieldsMode ("include".toList ++ rest) e = .ok .only rest e ∧
+    fieldsMode (q!"only" ++ rest) e = .ok .only rest e ∧
+    fieldsMode (q!"include" ++ rest) e = .ok .only rest e ∧
     fieldsMode ('-' :: rest) e = .ok .except rest e ∧
-    fieldsMode ("except".toList ++ rest) e = .ok .except rest e ∧
-    fieldsMode ("drop".toList ++ rest) e = .ok .except rest e := by
+    fieldsMode (q!"except" ++ rest) e = .ok .except rest e ∧
+    fieldsMode (q!"drop" ++ rest) e = .ok .except rest e := by
   refine ⟨?_, ?_, ?_, ?_, ?_, ?_⟩ <;> simp [fieldsMode, altL, alt, pmap, tag, Text.stripPrefix?, Res.castErr]
 
 /-- **C20 (`pNN` ≡ `pctNN` ≡ `percentileNN`)**: the three function-name spellings consume exactly
 the name when a digit follows -/
 theorem C20_pct_tag_synonyms (d : Char) (hd : d.isDigit = true) (rest : List Char) (e : Nat) :
-    pctTag ("pct".toList ++ d :: rest) e = .ok () (d :: rest) e ∧
-    pctTag ("percentile".toList ++ d :: rest) e = .ok () (d :: rest) e ∧
+    pctTag (q!"pct" ++ d :: rest) e = .ok () (d :: rest) e ∧
+    pctTag (q!"percentile" ++ d :: rest) e = .ok () (d :: rest) e ∧
     pctTag ('p' :: d :: rest) e = .ok () (d :: rest) e := by
   have hc : ¬ ('c' = d) := by intro h; subst h; simp at hd
   have he : ¬ ('e' = d) := by intro h; subst h; simp at hd
@@ -155,7 +155,7 @@ theorem C20_blanks_after_operator {α} (p : P α) (i w r : List Char) (e e1 : Na
   show (P.bind' p fun a => P.bind' ws0 fun _ => P.pure' a) i e = _
   simp [P.bind', hp, ws0, P.pure', dropWhile_ws_append w r h]
 
-example : AllWs " \t\r\n ".toList := by decide
+example : AllWs q!" \t\r\n " := by decide
 
 /-! ### spellings that differ in the AST but not after type checking -/
 
